@@ -10,7 +10,7 @@ INFO = dict(
             'mpsc_fifo_push', 'mpsc_fifo_trypop', 'spsc_fifo_push', 'spsc_fifo_trypop', 'fiber_manager_do_maintenance'],
  stubs=['contract kernel (see C03)', 'multi channel: fiber_mutex replaced by its C03 contract (abstract mutex)'],
  assumptions=['assume-guarantee: the runtime contract of C01/C02 holds for yield/schedule', 'x86-TSO mapping of atomics; -O1 IR of clang-14'],
- bounds='signal: 1 waiter x 1-2 waits, 1-2 raisers; channels: capacity 2, 1-2 senders x 1-2 messages, 1 receiver; spin bound 1; all interleavings (SC), spsc channel also TSO',
+ bounds='signal wait/raise handshake: 1 waiter x 1-2 waits, 1-2 raisers, all interleavings (SC) - decided; channels (queue + signal): capacity 2, 1-2 senders x 1-2 messages, 1 receiver - stretch jobs of the thorough tier, no verdict within 40 min so far: for channels the claim rests on composition (queue correctness = C15/C16, never-lost raise = the signal scenarios)',
  outside='more messages/senders; capacities > 2')
 
 
@@ -19,8 +19,8 @@ def plan(tier, ctx):
     j = []
     j += fvm.config('C11', 'signal_1w1r', 'signal.c', 2, 4, 'sc', srcs=src, defines=['NRAISE=1', 'NWAITS=1'], spec=fvm.kspec(2), bounds='1 wait, 1 raise', timeout=900)
     j += fvm.config('C11', 'signal_1w2r', 'signal.c', 3, 4, 'sc', srcs=src, defines=['NRAISE=2', 'NWAITS=1'], spec=fvm.kspec(3), bounds='1 wait, 2 raisers', timeout=1200)
-    j += fvm.config('C11', 'chan_unbounded_1x1', 'chan.c', 2, 4, 'sc', srcs=src, defines=['KIND=2', 'NSEND=1', 'NMSG=1'], spec=fvm.kspec(2), bounds='unbounded channel, 1 sender x 1', timeout=1500)
     if tier == 'thorough':
+        j += fvm.config('C11', 'chan_unbounded_1x1', 'chan.c', 2, 4, 'sc', srcs=src, defines=['KIND=2', 'NSEND=1', 'NMSG=1'], spec=fvm.kspec(2), bounds='unbounded channel, 1 sender x 1', timeout=3600, required=False)
         j += fvm.config('C11', 'mchan_1s1r_3', 'mchan.c', 2, 5, 'sc', srcs=src, defines=['NSEND=1', 'NRECV=1', 'NMSG=3'], spec=fvm.kspec_amutex(2),
                         bounds='multi channel cap 2 (abstract mutex), 1 sender x 3, 1 receiver (the sender must block on the full channel)', timeout=1800, required=False)
         j += fvm.config('C11', 'chan_bounded_1x2', 'chan.c', 2, 5, 'sc', srcs=src, defines=['KIND=1', 'NSEND=1', 'NMSG=2'], spec=fvm.kspec(2), bounds='bounded channel cap 2, 1 sender x 2', timeout=2400, required=False)
